@@ -25,7 +25,7 @@ def stream(rng, n, regime=None, positive=False):
     """a float stream of length n; returns (x0, xs, regime)"""
     regime = regime or rng.choice(REGIMES)
     xs = []
-    base = rng.choice([1.0, 100.0, 0.01, 12345.678, 1e-3, 1e5])
+    base = rng.choice([1.0, 100.0, 0.01, 12345.678, 1e-3, 1e5, 1.0, 100.0, 1e-17, 1e12, 2.0 ** -60])
     if regime == "walk":
         x = base
         for _ in range(n):
